@@ -83,6 +83,15 @@ theorem finishClass_lib (ci : ClassInfo) (kw : List (S × PyVal)) (ca : List (Py
     | ok fs => simp [hb, bind, Except.bind, pure, Except.pure] at h
   · simp at h; subst h; rfl
 
+theorem finishKw_lib (ci : ClassInfo) (kw : List (S × PyVal)) (e : LErr)
+    (h : finishKw ci kw = .error e) : isLib e = true := by
+  simp only [finishKw] at h
+  split at h
+  · cases hb : buildFields kw ci.fields with
+    | error e2 => simp [hb, bind, Except.bind] at h; subst h; exact buildFields_lib _ _ _ hb
+    | ok fs => simp [hb, bind, Except.bind, pure, Except.pure] at h
+  · simp at h; subst h; rfl
+
 /-- C14, v1 engine: *every* failing load of a class — any JSON input, any field loaders — ends in a library
 error (ParseError, MissingData, MissingFields, UnknownKeysError), never a bare exception. -/
 theorem C14_lib_only (fl : S → JVal → LRes) (eff : MetaCfg) (ci : ClassInfo) (o : JVal) (e : LErr)
@@ -98,14 +107,10 @@ theorem C14_lib_only (fl : S → JVal → LRes) (eff : MetaCfg) (ci : ClassInfo)
       exact v1Fields_lib fl eff ci kvs ci.fields e' hf
     | ok res =>
       obtain ⟨kw, found⟩ := res
-      simp only [hf, bind, Except.bind] at h
+      simp only [hf, bind, Except.bind, v1Finish] at h
       split at h
-      · split at h
-        · simp at h; subst h; rfl
-        · exact finishClass_lib _ _ _ _ _ h
-      · split at h
-        · simp at h; subst h; rfl
-        · exact finishClass_lib _ _ _ _ _ h
+      · simp at h; subst h; rfl
+      · exact finishKw_lib _ _ _ h
   | bool b => simp [v1ClassWith] at h; subst h; rfl
   | int i => simp [v1ClassWith] at h; subst h; rfl
   | float f => simp [v1ClassWith] at h; subst h; rfl
@@ -117,5 +122,41 @@ loader already named an inner class / field (innermost wins) -/
 theorem C14_attribution_innermost (c f : S) (ic : Option S) (ifd : Option S) :
     v1SetAttr c f (.parse ic ifd) = .parse (ic <|> some c) (ifd <|> some f) ∧
     v1SetAttr c f (.raw "ValueError".toList) = .parse (some c) (some f) := ⟨rfl, rfl⟩
+
+/-! ### v1 stream (unknown-key policies, catch-all, tags, nesting) -/
+
+/-- whatever the unknown-key policy, catch-all field and tag of the class: the step after the field loop (UnknownKeysError
+under RAISE, catch-all capture, `cls(...)` and its MissingFields conversion) fails with library errors only -/
+theorem C14_v1_finish_lib (eff : MetaCfg) (ci : ClassInfo) (kvs : List (S × JVal)) (kw : List (S × PyVal)) (found : Nat)
+    (e : LErr) (h : v1Finish eff ci kvs kw found = .error e) : isLib e = true := by
+  simp only [v1Finish] at h
+  split at h
+  · simp at h; subst h; rfl
+  · exact finishKw_lib _ _ _ h
+
+/-- a main class bound to the v1 engine: every failing `fromdict` ends in a library error -/
+theorem C14_v1_fromdict_lib (std : Std) (ci : ClassInfo) (ftys : List (S × Ty)) (o : JVal) (e : LErr)
+    (h : fromdictV1 std (.cls ci ftys) o = .error e) : isLib e = true := by
+  simp only [fromdictV1] at h
+  exact C14_lib_only _ _ _ _ _ h
+
+/-- ... and so does every nested dataclass, under whatever Meta the cascade gives it -/
+theorem C14_v1_nested_lib (std : Std) (cfg : Option MetaCfg) (ci : ClassInfo) (ftys : List (S × Ty)) (o : JVal) (e : LErr)
+    (h : loadV1 std cfg (.cls ci ftys) o = .error e) : isLib e = true := by
+  simp only [loadV1] at h
+  exact C14_lib_only _ _ _ _ _ h
+
+/-- innermost attribution survives any number of enclosing classes: once an inner class has named (class, field), the
+handlers of the enclosing classes leave both untouched — for a ParseError as for a MissingData -/
+theorem C14_v1_innermost_kept (c1 f1 c2 f2 : S) (x : S) (n : S) :
+    v1SetAttr c2 f2 (v1SetAttr c1 f1 (.raw x)) = .parse (some c1) (some f1) ∧
+    v1SetAttr c2 f2 (v1SetAttr c1 f1 (.parse none none)) = .parse (some c1) (some f1) ∧
+    v1SetAttr c2 f2 (v1SetAttr c1 f1 (.missingData none none n)) = .missingData (some c1) (some f1) n := ⟨rfl, rfl, rfl⟩
+
+/-- MissingFields and UnknownKeysError of an inner class pass through the enclosing handlers unchanged: they keep naming
+the inner class -/
+theorem C14_v1_inner_errors_pass (c f : S) (c' : S) (ms ks : List S) :
+    v1SetAttr c f (.missingFields c' ms) = .missingFields c' ms ∧
+    v1SetAttr c f (.unknownKeys c' ks) = .unknownKeys c' ks := ⟨rfl, rfl⟩
 
 end DW.Props.C14
